@@ -79,7 +79,9 @@ func (f *OrefaFile) Chmod(mode fs.FileMode) error {
 		return &fs.PathError{Op: op, Path: f.name, Err: fs.ErrClosed}
 	}
 
+	f.nd.mu.Lock()
 	f.nd.setMode(mode)
+	f.nd.mu.Unlock()
 
 	return nil
 }
@@ -111,7 +113,9 @@ func (f *OrefaFile) Chown(uid, gid int) error {
 		return &fs.PathError{Op: op, Path: f.name, Err: avfs.ErrWinNotSupported}
 	}
 
+	f.nd.mu.Lock()
 	f.nd.setOwner(uid, gid)
+	f.nd.mu.Unlock()
 
 	return nil
 }
@@ -166,8 +170,8 @@ func (f *OrefaFile) Read(b []byte) (n int, err error) {
 		return 0, fs.ErrInvalid
 	}
 
-	f.mu.RLock()
-	defer f.mu.RUnlock()
+	f.mu.Lock()
+	defer f.mu.Unlock()
 
 	if f.name == "" {
 		return 0, fs.ErrInvalid
@@ -288,8 +292,8 @@ func (f *OrefaFile) ReadDir(n int) ([]fs.DirEntry, error) {
 		return nil, fs.ErrInvalid
 	}
 
-	f.mu.RLock()
-	defer f.mu.RUnlock()
+	f.mu.Lock()
+	defer f.mu.Unlock()
 
 	if f.name == "" {
 		return nil, fs.ErrInvalid
@@ -363,8 +367,8 @@ func (f *OrefaFile) Readdirnames(n int) (names []string, err error) {
 		return nil, fs.ErrInvalid
 	}
 
-	f.mu.RLock()
-	defer f.mu.RUnlock()
+	f.mu.Lock()
+	defer f.mu.Unlock()
 
 	if f.name == "" {
 		return nil, fs.ErrInvalid
@@ -605,8 +609,8 @@ func (f *OrefaFile) Write(b []byte) (n int, err error) {
 		return 0, fs.ErrInvalid
 	}
 
-	f.mu.RLock()
-	defer f.mu.RUnlock()
+	f.mu.Lock()
+	defer f.mu.Unlock()
 
 	if f.name == "" {
 		return 0, fs.ErrInvalid
